@@ -81,11 +81,22 @@ EXPR_ATTRS = {('ParticleScalar', 'expression'): ('scalar', 'particle'), ('PairPa
 
 # ------------------------------------------------------------------ tables from the real binary
 
+def popen_retry(*a, **kw):
+    """the hooked binary is relinked by other checks now and then: retry while it is being replaced"""
+    for k in range(30):
+        try:
+            return subprocess.Popen(*a, **kw)
+        except (PermissionError, FileNotFoundError, OSError) as ex:
+            last = ex
+            time.sleep(2)
+    raise last
+
+
 def load_tables(binary=SYMPLER):
     """-> dict(modules={name: {attr: type}}, cats={category: [module names]})"""
     modules, cats = {}, {}
     for cat in CATEGORIES:
-        out = subprocess.run([binary, '--help', cat], stdout=subprocess.PIPE, stderr=subprocess.STDOUT, timeout=60).stdout.decode(errors='replace')
+        out = popen_retry([binary, '--help', cat], stdout=subprocess.PIPE, stderr=subprocess.STDOUT).communicate(timeout=60)[0].decode(errors='replace')
         cur = None
         cats[cat] = []
         for line in out.splitlines():
@@ -475,7 +486,7 @@ def run_one(d, env, binary):
     e.update(env)
     t0 = time.time()
     try:
-        p = subprocess.Popen([binary, 'in.xml'], cwd=d, stdout=subprocess.PIPE, stderr=subprocess.STDOUT, env=e, start_new_session=True)
+        p = popen_retry([binary, 'in.xml'], cwd=d, stdout=subprocess.PIPE, stderr=subprocess.STDOUT, env=e, start_new_session=True)
         try:
             out, _ = p.communicate(timeout=TIMEOUT)
             timed_out = False
